@@ -120,6 +120,12 @@ def cases(tier, seed, shard, nshards):
                         continue
                     yield {"k": "operand", "d": d, "outer": e["label"], "slot": slot, "label": lab, "mode": "param" if (k // nshards) % 3 == 0 else "inline"}
     for d in DIALECT_CLASSES:
+        for shape in OWN_NAME_SHAPES:
+            for mode in ("inline", "param"):
+                k += 1
+                if k % nshards == shard:
+                    yield {"k": "own-name", "d": d, "shape": shape, "mode": mode}
+    for d in DIALECT_CLASSES:
         for form in FACTORY_FORMS:
             for maker in ("Q.Tables", "make_tables", "Tables"):
                 k += 1
@@ -450,6 +456,60 @@ def run_source(case, mon):
     mon.nontrivial(case)
 
 
+OWN_NAME_SHAPES = ["field", "field-joined", "arith-ends-with-column", "function-of-column", "table", "table-joined", "subquery-column", "orderby-groupby"]
+
+
+def run_own_name(case, mon):
+    """An alias that equals a name already in the term (its column, its table, the last operand's column) is an alias like any other:
+    the statement is the one written with a neutral alias, with that alias replaced."""
+    r = R()
+    d = case["d"]
+    Q = r[d]
+    fam = DIALECT_OF[d] if d != "Query" else "generic"
+
+    def build(al):
+        T = r["Table"]
+        t, u = T("tt"), T("uu")
+        sh = case["shape"]
+        if sh == "field":
+            return Q.from_(t).select(t.total.as_(al), t.b)
+        if sh == "field-joined":
+            return Q.from_(t).join(u).on(t.id == u.id).select(t.total.as_(al), u.total)
+        if sh == "arith-ends-with-column":
+            c_, p_ = T("cur_t", alias="cur"), T("prev_t", alias="prev")
+            e = (c_.total - p_.total).as_(al)
+            return Q.from_(c_).join(p_).on(c_.id == p_.id).select(e).orderby(e)
+        if sh == "function-of-column":
+            e = r["fn.Max"](t.total).as_(al)
+            return Q.from_(t).select(e).groupby(t.b).orderby(e)
+        if sh == "table":
+            ta = T("total").as_(al)
+            return Q.from_(ta).select(ta.x)
+        if sh == "table-joined":
+            ta = T("total").as_(al)
+            return Q.from_(t).join(ta).on(t.id == ta.id).select(ta.x, t.total)
+        if sh == "subquery-column":
+            inner = Q.from_(t).select(t.total.as_(al)).as_("sq_i")
+            return Q.from_(inner).select(inner.field(al))
+        e = (t.total + 1).as_(al)
+        return Q.from_(t).select(e, t.total.as_("other")).groupby(e).orderby(e)
+    try:
+        neutral = tokenize(sql_of(build(AL), d, case.get("mode", "inline")), d)
+        own_sql = sql_of(build("total"), d, case.get("mode", "inline"))
+        own = tokenize(own_sql, d)
+    except Exception as e:
+        mon.violation("own-name-alias:raises:%s:%s" % (case["shape"], type(e).__name__), "raised %r" % e)
+        return
+    mon.count("own_name_alias_statements")
+    want = [(t_.kind, "total" if (t_.kind == "IDENT" and t_.value == AL) else (t_.value if t_.kind in ("IDENT", "STR", "NUM", "WORD") else t_.text)) for t_ in neutral]
+    got = [(t_.kind, t_.value if t_.kind in ("IDENT", "STR", "NUM", "WORD") else t_.text) for t_ in own]
+    if got != want:
+        mon.violation("own-name-alias:%s:%s" % (case["shape"], fam), "with the alias 'total' (a name the term already contains) the statement is %r; with a neutral alias it has %d tokens, this one %d" % (
+            own_sql[:260], len(want), len(got)))
+        return
+    mon.nontrivial(case)
+
+
 FACTORY_FORMS = {
     # (arguments of Tables(), index -> expected alias)
     "alias-first": ([("orders", AL), "customers", "items"], {0: AL, 1: None, 2: None}),
@@ -501,6 +561,8 @@ def run_factory(case, mon):
 def run_case(case, mon):
     if case.get("k") == "factory":
         return run_factory(case, mon)
+    if case.get("k") == "own-name":
+        return run_own_name(case, mon)
     {"position": run_position, "operand": run_operand, "source": run_source}[case["k"]](case, mon)
 
 
